@@ -3,6 +3,7 @@ import Dhlldv.Gen.Dispatch
 import Dhlldv.Spec.Select
 import Dhlldv.Spec.Graded
 import Dhlldv.Spec.SlurryObj
+import Dhlldv.Spec.Memo
 import Dhlldv.Gen.Effects
 
 /-! Line-protocol dispatcher over the hand-written Spec models. -/
@@ -74,6 +75,23 @@ def dispatch (op : String) (a : Array String) : Option String :=
             | _ => false
           go s' rest ((b s'.dG ++ b s'.dC ++ b rG ++ b rC) :: acc)
     (go (Spec.Slurry.init (fun _ => 0) 0) a.toList []).map (" ".intercalate ·)
+  | "spec.memo" =>
+    -- spec.memo <keyHasSwitches> <handsOut> <op> … with op = c:<a> | t:<sw> | m:<a>:<v> | x ; per call: 1 = served from the memo, 0 = computed
+    if a.size < 2 then none else
+    let f : Spec.Memo.Fn := { cached := true, keyHasSwitches := Gen.bOf a[0]!, handsOut := Gen.bOf a[1]!, body := fun sw x => 1000 * sw + x }
+    let rec goM (s : Spec.Memo.St) (ts : List String) (acc : List String) : Option (List String) :=
+      match ts with
+      | [] => some acc.reverse
+      | t :: rest =>
+        match t.splitOn ":" with
+        | ["c", x] =>
+          let hit := (Spec.Memo.lookup s.memo (Spec.Memo.key f s.sw x.toNat!)).isSome
+          goM (Spec.Memo.step f s (.call x.toNat!)).1 rest ((if hit then "1" else "0") :: acc)
+        | ["t", x] => goM (Spec.Memo.step f s (.toggle x.toNat!)).1 rest acc
+        | ["m", x, v] => goM (Spec.Memo.step f s (.mutate x.toNat! v.toNat!)).1 rest acc
+        | ["x"] => goM (Spec.Memo.step f s .clear).1 rest acc
+        | _ => none
+    (goM { sw := 3, memo := [] } (a.toList.drop 2) []).map (" ".intercalate ·)
   | _ => none
 
 end Spec
